@@ -13,6 +13,7 @@
   Helper lemmas live in Lemmas/Quals*.lean; this file only states the property.
 -/
 import PurlModel.Lemmas.QualsStep
+import PurlModel.Lemmas.QualsSpec
 import PurlModel.Lemmas.RustUnicode
 namespace Purl.C11
 open Purl Purl.Generated
@@ -121,6 +122,111 @@ theorem vacant_insert_spec (q : Quals) (hq : QInv q) (k v : Str) (hk : isValidKe
     simp at he
     obtain ⟨rfl, rfl⟩ := he
     exact ⟨_, vacantInsert_eq hmk' hf, QInv_upsert v hq (keyOk_asciiLower hk), fun p => lookup_upsert v hq.1 p⟩
+
+/-- `retain`: keeps the invariant; the reference map is filtered by the predicate -/
+theorem retain_spec (q : Quals) (hq : QInv q) (f : Str → Str → Bool) :
+    QInv (q.retain f) ∧ ∀ p, lookup (q.retain f) p = (lookup q p).filter (f p) :=
+  ⟨QInv_filter _ hq, fun p => lookup_filter hq.1 f p⟩
+
+/-- `get_mut(k)` hands out the slot of the reference map's entry (any letter case of `k`), and
+assigning through it is the map update; for an absent or invalid key there is no slot -/
+theorem getMut_spec (q : Quals) (hq : QInv q) (k v : Str) :
+    (isValidKey k = true → (lookup q (asciiLower k)).isSome = true →
+      ∃ i q', q.getMutIndex U k = .ok (some i) ∧ q.setAt i v = .ok q' ∧ QInv q' ∧
+        ∀ p, lookup q' p = if p = asciiLower k then some v else lookup q p) ∧
+    ((isValidKey k = false ∨ lookup q (asciiLower k) = none) → q.getMutIndex U k = .ok none) := by
+  constructor
+  · intro hk hs
+    have hf : foundAt (asciiLower k) q = true := by
+      rw [foundAt_eq_lookupS, lookupS_eq_lookup hq.1]; exact hs
+    refine ⟨lb (asciiLower k) q, upsert (asciiLower k) v q, ?_, setAt_lb_eq_upsert hf v,
+      QInv_upsert v hq (keyOk_asciiLower hk), fun p => lookup_upsert v hq.1 p⟩
+    rw [getMutIndex_eq U, hk, hf]
+    rfl
+  · intro h
+    rw [getMutIndex_eq U]
+    rcases h with h | h
+    · rw [h]; rfl
+    · have hf : foundAt (asciiLower k) q = false := by
+        rw [foundAt_eq_lookupS, lookupS_eq_lookup hq.1, h]; rfl
+      rw [hf]
+      simp
+
+/-- `Index` (`q[k]`): the reference map's value — or the documented panic when there is none -/
+theorem index_spec (q : Quals) (hq : QInv q) (k : Str) :
+    q.index U k = (match (if isValidKey k then lookup q (asciiLower k) else none) with
+                   | some v => .ok v
+                   | none => panic .qualIndex) := by
+  rw [index_eq U, lookupS_eq_lookup hq.1]
+  rfl
+
+/-- `try_from_iter` on valid keys that are pairwise distinct ignoring case: every pair is stored
+(empty values too), the content is exactly the pairs; a key present already — in any letter case —
+or an invalid key is refused with InvalidQualifier -/
+theorem tryFromIter_spec (items : List (Str × Str)) (hok : ∀ kv ∈ items, isValidKey kv.1 = true)
+    (hnd : (items.map fun kv => asciiLower kv.1).Nodup) :
+    ∃ q, Quals.tryFromIter U items [] = .ok q ∧ QInv q ∧ ∀ p, lookup q p = pairsLookup items p := by
+  obtain ⟨q, h1, h2, h3⟩ := tryFromIter_of_distinct U items [] QInv_nil hok hnd (fun _ _ => rfl)
+  refine ⟨q, h1, h2, ?_⟩
+  intro p
+  rw [h3 p]
+  cases pairsLookup items p <;> rfl
+
+theorem tryFromIter_refuses (k v : Str) (rest : List (Str × Str)) (acc : Quals) (hacc : QInv acc) :
+    (isValidKey k = false → Quals.tryFromIter U ((k, v) :: rest) acc = fail .invalidQualifier) ∧
+    (isValidKey k = true → (lookup acc (asciiLower k)).isSome = true →
+      Quals.tryFromIter U ((k, v) :: rest) acc = fail .invalidQualifier) := by
+  refine ⟨tryFromIter_invalid U k v rest acc, ?_⟩
+  intro hk hs
+  apply tryFromIter_duplicate U k v rest acc hk
+  rw [foundAt_eq_lookupS, lookupS_eq_lookup hacc.1]; exact hs
+
+/-- the order of the pairs given to `try_from_iter` does not matter -/
+theorem tryFromIter_order_irrelevant (a b : List (Str × Str)) (hperm : a.Perm b)
+    (hok : ∀ kv ∈ a, isValidKey kv.1 = true) (hnd : (a.map fun kv => asciiLower kv.1).Nodup) :
+    ∃ q, Quals.tryFromIter U a [] = .ok q ∧ Quals.tryFromIter U b [] = .ok q := by
+  have hokb : ∀ kv ∈ b, isValidKey kv.1 = true := fun x hx => hok x (hperm.symm.subset hx)
+  have hndb : (b.map fun kv => asciiLower kv.1).Nodup := (hperm.map _).nodup_iff.1 hnd
+  obtain ⟨qa, a1, a2, a3⟩ := tryFromIter_spec U a hok hnd
+  obtain ⟨qb, b1, b2, b3⟩ := tryFromIter_spec U b hokb hndb
+  have : qa = qb := by
+    apply QInv.ext a2.1 b2.1
+    intro p
+    rw [a3 p, b3 p]
+    -- at most one pair has key p (ignoring case), so `find?` does not depend on the order
+    unfold pairsLookup
+    have key : ∀ (l : List (Str × Str)), (l.map fun kv => asciiLower kv.1).Nodup → ∀ x ∈ l, asciiLower x.1 = p →
+        l.find? (fun kv => asciiLower kv.1 == p) = some x := by
+      intro l
+      induction l with
+      | nil => intro _ x hx; simp at hx
+      | cons y ys ih =>
+        intro hn x hx hp
+        simp only [List.map_cons, List.nodup_cons, List.mem_map, not_exists, not_and] at hn
+        simp only [List.mem_cons] at hx
+        simp only [List.find?_cons]
+        rcases hx with rfl | hx
+        · simp [hp]
+        · have : (asciiLower y.1 == p) = false := by
+            have : asciiLower y.1 ≠ p := fun e => hn.1 x hx (by rw [hp, e])
+            simp [this]
+          rw [this]
+          exact ih hn.2 x hx hp
+    cases ha : a.find? (fun kv => asciiLower kv.1 == p) with
+    | some x =>
+      have hm := List.mem_of_find?_eq_some ha
+      have hp : asciiLower x.1 = p := by simpa using List.find?_some ha
+      rw [key b hndb x (hperm.subset hm) hp]
+    | none =>
+      cases hb : b.find? (fun kv => asciiLower kv.1 == p) with
+      | none => rfl
+      | some x =>
+        have hm := List.mem_of_find?_eq_some hb
+        have hp : asciiLower x.1 = p := by simpa using List.find?_some hb
+        rw [key a hnd x (hperm.symm.subset hm) hp] at ha
+        cases ha
+  subst this
+  exact ⟨qa, a1, b1⟩
 
 /-- Every stored pair is retrievable by its key, and the keys are strictly ascending. -/
 theorem stored_pairs (q : Quals) (hq : QInv q) :
